@@ -15,7 +15,14 @@ func RefCompress(cfg Config, data []byte) (stream []byte, err error) {
 		}
 	}()
 	var buf bytes.Buffer
-	w, err := rio.NewWriter(nopCloser{&buf}, cfg.Transform, cfg.Entropy, uint(cfg.BlockSize), uint(cfg.Jobs), uint(cfg.Checksum), cfg.HintValue, cfg.Headerless)
+	var w *rio.Writer
+	if cfg.SkipBlocks {
+		ctx := map[string]any{"entropy": cfg.Entropy, "transform": cfg.Transform, "blockSize": uint(cfg.BlockSize), "jobs": uint(cfg.Jobs),
+			"checksum": uint(cfg.Checksum), "fileSize": cfg.HintValue, "headerless": cfg.Headerless, "skipBlocks": true}
+		w, err = rio.NewWriterWithCtx(nopCloser{&buf}, ctx)
+	} else {
+		w, err = rio.NewWriter(nopCloser{&buf}, cfg.Transform, cfg.Entropy, uint(cfg.BlockSize), uint(cfg.Jobs), uint(cfg.Checksum), cfg.HintValue, cfg.Headerless)
+	}
 	if err != nil {
 		return nil, err
 	}
